@@ -194,7 +194,7 @@ pub fn apply_op(op: &Op, top: bool) {
             let (Some(io), Some(it)) = (pick(*owner, hs.len()), pick(*target, hs.len())) else { return noop() };
             let (loc_o, o) = hs[io];
             let (loc_t, t) = hs[it];
-            if wd.model.borrow().objs[o as usize].slots.len() >= 12 {
+            if wd.model.borrow().objs[o as usize].slots.len() >= 40 {
                 return noop();
             }
             let adopt = match mode {
@@ -446,7 +446,7 @@ pub fn apply_op(op: &Op, top: bool) {
             let nw = wd.model.borrow().wroots.len();
             let (Some(io), Some(iw)) = (pick(*owner, hs.len()), pick(*wsel, nw)) else { return noop() };
             let (_, o) = hs[io];
-            if wd.model.borrow().objs[o as usize].wslots.len() >= 6 {
+            if wd.model.borrow().objs[o as usize].wslots.len() >= 16 {
                 return noop();
             }
             let (c, t) = {
@@ -475,6 +475,11 @@ pub fn apply_op(op: &Op, top: bool) {
             lw.owner.set(NONE);
             wd.model.borrow_mut().objs[o as usize].wslots.remove(j);
             drop(lw);
+        }
+        Op::Repeat { op, k } => {
+            for _ in 0..(*k).min(16) {
+                apply_op(op, top);
+            }
         }
         Op::Probe => {
             audit(!top);
